@@ -69,13 +69,21 @@ func init() {
 		scripts := []string{"L", "M", "LL", "MM", "LM", "ML", "LML", "MLM", "LLMM", "MMLL", "LMLMLMLM", "MMMM", "LLLL", "MLLM"}
 		for i, a := range apis {
 			c.run("rep", scripts[c.rng.Intn(len(scripts))], a)
+			if i%2 == 1 || c.thorough() {
+				c.run("rep", "LMLM", a)
+			}
 			c.run("embed", a)
 			if isTopLevel(a) {
 				c.run("rtparse", a)
+				// ownership (C12) of what Parse builds from the library's own encoding of an API-built message
+				if j := strings.LastIndex(a, ";!"); j > 0 && (i%2 == 0 || c.thorough()) {
+					if b := marshalProg(a[:j], a[j+2:]); len(b) >= 8 {
+						c.run("scribble", hx(b), len(b))
+					}
+				}
 			} else {
 				c.run("rtrip", a)
 			}
-			_ = i
 		}
 		// late-growth histories: children intact and repeatable (implementation-side oracles)
 		for _, a := range apixs {
@@ -84,6 +92,7 @@ func init() {
 		for i, e := range encs {
 			if i%3 == 0 || c.thorough() {
 				c.run("repx", scripts[c.rng.Intn(len(scripts))], e)
+				c.run("repx", "LMLM", e) // a size asked before and after each encoding
 				c.run("rtx", e)
 			}
 		}
